@@ -4,7 +4,8 @@ CONSTANTS
   Jobs = {1, 2, 3}
   MaxFail = 2
   AllowClose = TRUE
+  AtomicWait = TRUE
 VIEW View
-INVARIANTS TypeOK NothingLost OneCopy ClosedQuiet
-PROPERTIES NoRerun FailedRequeued NoDequeueAfterClose SubmitAnswer
+INVARIANTS TypeOK NothingLost OneCopy ClosedQuiet SomeoneWillLook
+PROPERTIES NoRerun FailedRequeued NoDequeueAfterClose QueuedAtCloseNeverStarts SubmitAnswer
 CHECK_DEADLOCK FALSE
